@@ -179,6 +179,22 @@ class Ctx:
                                timeout=timeout, cwd=self.work)
         except subprocess.TimeoutExpired:
             raise Broken("driver timed out: %s" % " ".join(map(str, args)))
+        if p.returncode == 2 and ("fatal error:" in p.stderr or "panic:" in p.stderr) and "gkvlite." in p.stderr:
+            # the Go runtime killed the process inside the library (stack
+            # overflow through a corrupted tree, concurrent map fault, ...):
+            # that is an outcome of the run, not a broken check.  The trace is
+            # flushed after every event; append the crash as a Panic event.
+            out = None
+            for i, a in enumerate(args):
+                if a == "-out":
+                    out = str(args[i + 1])
+            if out is None:
+                raise Broken("driver died and has no -out: " + p.stderr[:2000])
+            head = [l for l in p.stderr.splitlines() if l.strip()][:3]
+            with open(out, "a") as f:
+                f.write(json.dumps({"e": "Panic", "cat": self.prop + ":fatal-runtime-error",
+                                    "msg": " | ".join(head)[:500]}) + "\n")
+            return dict(driver="died", histories=1, events=0, by_event={}), True
         if p.returncode not in (0, 3):
             raise Broken("driver failed rc=%d: %s\n%s" % (p.returncode, " ".join(map(str, args)), p.stderr[-2000:]))
         try:
